@@ -261,6 +261,11 @@ let compute_obs (w : M.world) =
       p "twapint" (sz vc.M.v_twap_interval); p "engine" (sz vc.M.v_engine); p "ifund" (sz vc.M.v_ifund);
       p "feed" (sz vc.M.v_feed); p "owner" (show_oa v.M.v_owner);
       p "snaps" (string_of_int (List.length v.M.snaps));
+      let show_snap = function
+        | Some sn -> Printf.sprintf "%s/%s/%s/%s" (sz sn.M.s_q) (sz sn.M.s_b) (sz sn.M.s_time) (sz sn.M.s_height)
+        | None -> "none" in
+      p "s0" (show_snap (match v.M.snaps with a :: _ -> Some a | [] -> None));
+      p "s1" (show_snap (match v.M.snaps with _ :: b :: _ -> Some b | _ -> None));
       p "spot" (show_rz (M.q_spot v));
       p "twap" (show_rz (M.q_twap_price v e vc.M.v_twap_interval));
       p "twap15" (show_rz (M.q_twap_price v e (zi 900)));
@@ -355,6 +360,7 @@ let world_line lineno line (toks : string list) : bool =
       if m <> r then report lineno (!cur_history ^ " | " ^ !cur_op ^ " | " ^ line) ("result " ^ m);
       true
   | "X" :: _ -> true
+  | "A" :: _ -> true
   | "S" :: rest ->
       (match !world with
        | Some w ->
